@@ -140,7 +140,8 @@ func (p *OvProg) Subst(m OvMap) (c *Case, missing string) {
 		}
 		cs = append(cs, ConstDecl{Name: d.Name, Ty: d.Ty, Init: d.Init, Explicit: true})
 	}
-	mod.Consts = append(cs, p.Mod.Consts...)
+	// ordinary module constants first: override initialisers may reference them, never the reverse
+	mod.Consts = append(append([]ConstDecl(nil), p.Mod.Consts...), cs...)
 	return &Case{Family: "F6o" + p.Part, Sig: p.Sig, Mod: &mod, Bufs: p.Bufs, Groups: p.Groups, BufTypes: p.BufTypes, Approx: p.Approx}, ""
 }
 
@@ -841,4 +842,109 @@ func formGroup(sig string) string {
 		return "bitcast:" + p[1]
 	}
 	return p[0]
+}
+
+// ---------------------------------------------------------------- F6o-comp: composite values and named constants
+
+// F6oComp: overrides inside composite constructors (vector, splat, array, struct) in module-scope
+// initialisers and in function bodies, component access / swizzle / dynamic indexing of such values,
+// and initialisers that combine overrides with named module constants. One program per
+// (numeric type, form).
+func F6oComp() []*OvProg {
+	var out []*OvProg
+	for ti, t := range []*Type{TI32, TU32, TF32} {
+		lit := func(v int) Expr {
+			if t.S == F32 {
+				return ovLit(t, math.Float32bits(float32(v)), false)
+			}
+			return ovLit(t, uint32(v), false)
+		}
+		v3 := Vec(t.S, 3)
+		v2 := Vec(t.S, 2)
+		a3 := Array(t, 3)
+		st := Struct("S", Member{Name: "a", T: t}, Member{Name: "b", T: v2})
+		X, Y := L("X", t), L("Y", t)
+		mul := func(a, b Expr) Expr { return &Bin{Op: "*", L: a, R: b, Ty: a.T()} }
+		add := func(a, b Expr) Expr { return &Bin{Op: "+", L: a, R: b, Ty: a.T()} }
+		type form struct {
+			name    string
+			consts  []ConstDecl
+			structs []*Type
+			globals []Global
+			yInit   Expr // initialiser of Y (nil: a literal)
+			outs    func() []Expr
+			locals  []Stmt
+		}
+		gv := func(ty *Type) Expr { return V("g", ty) }
+		dynIdx := &Bin{Op: "&", L: Idx(V("o", Array(TU32, 0)), LitU(7)), R: LitU(1), Ty: TU32} // o[7] holds the 0xCDCDCDCD sentinel: index 1
+		forms := []form{
+			{name: "global-vec", globals: []Global{{Name: "g", Space: "private", Ty: v3, Init: &Cons{Ty: v3, Args: []Expr{X, lit(2), Y}}}},
+				outs: func() []Expr { return []Expr{Swizzle(gv(v3), "x"), Swizzle(gv(v3), "y"), Swizzle(gv(v3), "z")} }},
+			{name: "global-splat", globals: []Global{{Name: "g", Space: "private", Ty: v3, Init: &Cons{Ty: v3, Args: []Expr{add(X, Y)}}}},
+				outs: func() []Expr { return []Expr{Swizzle(gv(v3), "x"), Swizzle(gv(v3), "z")} }},
+			{name: "global-array", globals: []Global{{Name: "g", Space: "private", Ty: a3, Init: &Cons{Ty: a3, Args: []Expr{Y, X, lit(5)}}}},
+				outs: func() []Expr { return []Expr{Idx(gv(a3), LitU(0)), Idx(gv(a3), LitU(1)), Idx(gv(a3), dynIdx)} }},
+			{name: "global-struct", structs: []*Type{st}, globals: []Global{{Name: "g", Space: "private", Ty: st, Init: &Cons{Ty: st, Args: []Expr{X, &Cons{Ty: v2, Args: []Expr{Y, lit(4)}}}}}},
+				outs: func() []Expr { return []Expr{Fld(gv(st), "a"), Swizzle(Fld(gv(st), "b"), "x"), Swizzle(Fld(gv(st), "b"), "y")} }},
+			{name: "fn-vec", locals: []Stmt{&VarDecl{Kind: "let", Name: "v", Ty: v3, Init: mul(&Cons{Ty: v3, Args: []Expr{X, Y, lit(2)}}, &Cons{Ty: v3, Args: []Expr{lit(3)}})}},
+				outs: func() []Expr { return []Expr{Swizzle(L("v", v3), "x"), Swizzle(L("v", v3), "y"), Swizzle(L("v", v3), "z")} }},
+			{name: "fn-splat-swizzle", locals: []Stmt{&VarDecl{Kind: "let", Name: "v", Ty: v2, Init: Swizzle(add(&Cons{Ty: v3, Args: []Expr{X}}, &Cons{Ty: v3, Args: []Expr{lit(1), Y, lit(2)}}), "zy")}},
+				outs: func() []Expr { return []Expr{Swizzle(L("v", v2), "x"), Swizzle(L("v", v2), "y")} }},
+			{name: "fn-array-dynamic", locals: []Stmt{&VarDecl{Kind: "var", Name: "a", Ty: a3, Init: &Cons{Ty: a3, Args: []Expr{X, Y, lit(6)}}}},
+				outs: func() []Expr { return []Expr{Idx(V("a", a3), dynIdx), Idx(V("a", a3), LitU(2)), Idx(V("a", a3), LitU(0))} }},
+			{name: "fn-struct", structs: []*Type{st}, locals: []Stmt{&VarDecl{Kind: "var", Name: "s", Ty: st, Init: &Cons{Ty: st, Args: []Expr{Y, &Cons{Ty: v2, Args: []Expr{X, lit(4)}}}}}},
+				outs: func() []Expr { return []Expr{Fld(V("s", st), "a"), Swizzle(Fld(V("s", st), "b"), "x")} }},
+			{name: "fn-select-vec", locals: []Stmt{&VarDecl{Kind: "let", Name: "v", Ty: v2, Init: &Call{Fn: "select", Args: []Expr{&Cons{Ty: v2, Args: []Expr{X, lit(1)}}, &Cons{Ty: v2, Args: []Expr{lit(2), Y}}, &Bin{Op: ">", L: X, R: lit(4), Ty: TBool}}, Ty: v2}}},
+				outs: func() []Expr { return []Expr{Swizzle(L("v", v2), "x"), Swizzle(L("v", v2), "y")} }},
+			{name: "const-operand", consts: []ConstDecl{{Name: "C", Ty: t, Init: lit(3), Explicit: true}}, yInit: mul(X, L("C", t)),
+				outs: func() []Expr { return []Expr{add(X, L("C", t))} }},
+			{name: "const-default", consts: []ConstDecl{{Name: "C", Ty: t, Init: lit(3), Explicit: true}},
+				outs: func() []Expr { return []Expr{mul(Y, L("C", t))} }},
+		}
+		for _, f := range forms {
+			p := &OvProg{Part: "comp"}
+			xInit := Expr(ovLit(t, 5, true))
+			if t.S == F32 {
+				xInit = ovLit(t, math.Float32bits(1.5), true)
+			}
+			if f.name == "const-default" {
+				xInit = L("C", t)
+			}
+			yInit := f.yInit
+			if yInit == nil { // Y is an independent override unless the form is about derived initialisers
+				yInit = ovLit(t, 4, true)
+				if t.S == F32 {
+					yInit = ovLit(t, math.Float32bits(2.5), true)
+				}
+			}
+			p.Ovs = []OvDecl{{Name: "X", Ty: t, ID: -1, Init: xInit}, {Name: "Y", Ty: t, ID: -1, Init: yInit}}
+			if ti%2 == 1 {
+				p.Ovs[0].ID = 3
+			}
+			body := append([]Stmt(nil), f.locals...)
+			outs := f.outs()
+			body = append(body, &Assign{LHS: outAt(TU32, 0), Op: "=", RHS: toU32Expr(X)}, &Assign{LHS: outAt(TU32, 1), Op: "=", RHS: toU32Expr(Y)})
+			for i, e := range outs {
+				body = append(body, &Assign{LHS: outAt(TU32, 2+i), Op: "=", RHS: toU32Expr(e)})
+			}
+			body = append(body, &Assign{LHS: outAt(TU32, 6), Op: "=", RHS: LitU(42)})
+			ovFrame(p, TU32, 8, f.globals, nil, body)
+			p.Mod.Structs = f.structs
+			p.Mod.Consts = f.consts
+			p.Class = fmt.Sprintf("%s/%s", f.name, t)
+			p.Sig = fmt.Sprintf("F6o-comp/%s/%s", f.name, t)
+			p.Maps = []OvMap{{Label: "absent", Vals: map[string]float64{}}}
+			xv := map[SK][]float64{I32: {7, -2}, U32: {7, 9}, F32: {2.5, -0.5}}[t.S]
+			for _, v := range xv {
+				vm := map[string]float64{"X": v}
+				p.Maps = append(p.Maps, OvMap{Label: ovMapLabel(p.Ovs, vm), Vals: vm})
+			}
+			vm := map[string]float64{"X": xv[0], "Y": xv[1]}
+			p.Maps = append(p.Maps, OvMap{Label: ovMapLabel(p.Ovs, vm), Vals: vm})
+			vm2 := map[string]float64{"Y": xv[0]}
+			p.Maps = append(p.Maps, OvMap{Label: ovMapLabel(p.Ovs, vm2), Vals: vm2})
+			out = append(out, p)
+		}
+	}
+	return out
 }
